@@ -360,6 +360,13 @@ impl<T> Drop for Sender<T> {
             if id != 0 {
                 k.wake(id);
             }
+            // dropping a sender is observable by the other side (the last one disconnects the
+            // channel): a scheduling point AFTER the effect, so that whatever the dropping thread
+            // does next (e.g. release further fields of the same struct) can come after the
+            // receiver's reaction, as it can on real threads
+            if !std::thread::panicking() {
+                kernel::yield_now_with(|| format!("chan#{id}.sender-dropped"), &[0x5D, id]);
+            }
         }
     }
 }
